@@ -209,7 +209,7 @@ def run(chk, prog):
         # the local(s) that end up in the is_relative field of the Path the parser builds (found through the aggregate,
         # not by name)
         from analysis.defuse import du as _du
-        rel_locals, direct_cond = set(), []
+        rel_locals, direct_cond, tuple_consts = set(), [], []
         for bb, si, s in parser.stmts():
             if s['k'] == 'assign' and s['rv']['k'] == 'agg' and s['rv'].get('ak') == 'adt' \
                     and tyname(s['rv']['adt']) == 'Path' and 'is_relative' in s['rv']['fields']:
@@ -225,8 +225,21 @@ def run(chk, prog):
                             if df['kind'] == 'assign' and df['rv']['k'] == 'use' and df['rv']['op']['k'] in ('copy', 'move') \
                                     and 'p' not in df['rv']['op']['pl']:
                                 work.append(df['rv']['op']['pl']['l'])
+                            # `let (is_relative, rest) = match .. { Some(r) => (true, r), None => (false, text) }`
+                            elif df['kind'] == 'assign' and df['rv']['k'] == 'use' and df['rv']['op']['k'] in ('copy', 'move') \
+                                    and len(df['rv']['op']['pl'].get('p', [])) == 1 \
+                                    and df['rv']['op']['pl']['p'][0]['k'] == 'field' and 'adt' not in df['rv']['op']['pl']['p'][0]:
+                                tup, idx = df['rv']['op']['pl']['l'], df['rv']['op']['pl']['p'][0]['i']
+                                for d2 in _du(parser).defs.get(tup, []):
+                                    if d2['kind'] == 'assign' and d2['rv']['k'] == 'agg' and d2['rv'].get('ak') == 'tuple' \
+                                            and idx < len(d2['rv']['ops']):
+                                        o2 = d2['rv']['ops'][idx]
+                                        if o2.get('k') == 'const' and 'bool' in o2:
+                                            tuple_consts.append((d2['bb'], o2['bool']))
+                                        elif o2.get('k') in ('copy', 'move') and 'p' not in o2['pl']:
+                                            work.append(o2['pl']['l'])
                     direct_cond.append(o)
-        tr_assign = []
+        tr_assign = list(tuple_consts)
         for bb, si, s in parser.stmts():
             if s['k'] == 'assign' and 'p' not in s['pl'] and s['pl']['l'] in rel_locals and s['rv']['k'] == 'use' \
                     and 'bool' in s['rv']['op']:
@@ -256,6 +269,19 @@ def run(chk, prog):
                    'the parser does not set is_relative exactly when the leading "." was present (%s)' % tr_assign,
                    parser.loc(0))
         # index components
+        # the function that turns one piece of text into a component: the parser itself, one of its closures, or a
+        # function it hands to an iterator adaptor as a function item (`.map(Path::parse_component)`)
+        import re as _re
+        cands = list(prog.with_closures(parser))
+        for g_ in list(cands):
+            for _, t in g_.calls():
+                for ta in t['f'].get('targs') or []:
+                    for m_ in _re.findall(r'\{([A-Za-z0-9_:<> ]+)\}', ta):
+                        if m_ in prog.fns and prog.fns[m_].crate == 'bladeink':
+                            cands.append(prog.fns[m_])
+        pc = next((g_ for g_ in cands if any(callee_short(t) == 'Component::new_i' for _, t in g_.calls())), parser)
+        parser_whole = parser
+        parser = pc
         newi = [bb for bb, t in parser.calls() if callee_short(t) == 'Component::new_i']
         newn = [bb for bb, t in parser.calls() if callee_short(t) == 'Component::new']
         parses = [bb for bb, t in parser.calls() if callee_short(t).endswith('::parse') and 'usize' in ' '.join(t['f'].get('targs', []))]
@@ -271,6 +297,7 @@ def run(chk, prog):
         chk.decide(RB, chk.key(RB, 'index-iff-number'), ok3,
                    'an index component is built iff parse::<usize> succeeds',
                    'the parser does not build index components exactly for numeric text', parser.loc(0))
+        parser = parser_whole
     cd = prog.fn('<Component as Display>::fmt')
     if chk.anchor(RB, '<Component as Display>::fmt', cd):
         def atom4(desc):
